@@ -10,6 +10,8 @@ func oddJournals() []string {
 	big := strings.Repeat("1234567890", 6)
 	frac := strings.Repeat("0", 44) + "1000"
 	js := []string{
+		// assertions on balances strictly between -1 and 0, and between 0 and 1 (sign and leading zero)
+		"2020-01-01 open Liabilities:Card\n2020-01-01 open Expenses:B\n2020-01-01 open Assets:A\n\n2020-01-02 \"x\"\nLiabilities:Card Expenses:B 0.45 CHF\n\n2020-01-02 \"y\"\nLiabilities:Card Assets:A 0.001 USD\n\n2020-01-03 balance Liabilities:Card -0.45 CHF\n2020-01-03 balance\nLiabilities:Card -0.450 CHF\nLiabilities:Card -0.001 USD\nAssets:A 0.001 USD\n\n2020-01-04 \"z\"\nLiabilities:Card Expenses:B 0.54 CHF\n\n2020-01-05 balance Liabilities:Card -0.99 CHF\n",
 		// negative amounts with leading / trailing zeros; zero in all spellings; self-transfer with same-day close
 		"2020-01-01 open Assets:A\n2020-01-01 open Expenses:B\n\n2020-01-02 \"x\"\nAssets:A Expenses:B -007.500 USD\n",
 		"2020-01-01 open Assets:A\n2020-01-01 open Expenses:B\n\n2020-01-02 \"x\"\nAssets:A Expenses:B -0 USD\nAssets:A Expenses:B -0.00 USD\nAssets:A Expenses:B 0 USD\nAssets:A Expenses:B 0.000 USD\n",
